@@ -320,6 +320,9 @@ RULES = [
     ("C09-R3", "framing literals are balanced", r3),
     ("C09-R4", "header before rows, footer after them, early returns only on a closed pipe", r4),
     ("C09-R5", "flat separators, write_row protocol, writer hooks, formatter selection, select-list order", r5),
+    ("X-COLOR", "colouring only on a terminal and only for the name column", lambda ctx: __import__("extra").colorize_gate(ctx)),
+    ("X-WBUF", "the formatters' in-memory sink accepts every chunk", lambda ctx: __import__("extra").wbuf_total(ctx)),
+    ("X-LITERAL", "a literal is never answered from the text-keyed per-entry memo [shared]", lambda ctx: __import__("extra").literal_before_memo(ctx)),
 ]
 
 EXPLANATION = (
@@ -331,7 +334,8 @@ EXPLANATION = (
     "html/body/table/tr/td document; the header precedes every row, the footer follows unconditionally and the only "
     "earlier returns are closed-pipe stops; tabs/lines/list use \\t,\\n / \\n,\\n / \\0,\\0; write_row emits start, "
     "items in order with the last one flagged, end; each format selects its own formatter. Equality of decoded "
-    "content across formats is not decided; duplicate column names collapse in a JSON object (limitation of the format).")
+    "content across formats is not decided; duplicate column names collapse in a JSON object (limitation of the format)."
+    " The formatters' in-memory sink (WritableBuffer::write) has no failing path and appends every chunk whole; literals are not answered from the memo; colours are used only on a terminal and only for the name column.")
 ASSUMPTIONS = ["rustc's HIR faithfully represents the source; exporter and rule scripts are correct",
                "serde_json::to_string and csv::Writer produce valid JSON strings / RFC 4180 records"]
 NOT_DECIDED = ["equality of decoded content across the six formats on real result tables",
